@@ -5,6 +5,7 @@ from props import indexing
 
 MODULE = "Indexing"
 META = {
+    "spec": ["Indexing", "BarterSystem"],
     "level_note": "Trusted: TLC, the projection and concretisation in harness/src/idx_shared.rs, the recording stub "
                   "ExecutionClient behind the real ExecutionManager::run (tokio paused clock), the environment "
                   "assumptions in the evidence file. The global tables are taken from the implementation as given "
